@@ -110,7 +110,9 @@ def lock_classes(ctx):
             if cls.startswith('UNCLASSIFIED'):
                 out.append(undecided('LOCK-class', '%s|%s' % (short(fn.name), cls), 'lock site on a mutex the class table does not know', loc=fn.loc(bb), fn=fn.name))
     for cls, k in sorted(seen.items()):
-        if not cls.startswith('UNCLASSIFIED'):
+        if cls.startswith('auto:'):
+            out.append(ok('LOCK-class', cls, '%d lock sites on a mutex outside the role table: checked by the lock-order and under-a-lock rules as a class of its own' % k))
+        elif not cls.startswith('UNCLASSIFIED'):
             out.append(ok('LOCK-class', cls, '%d lock sites' % k))
     if n < 80 and not ctx.F.is_test:
         out.append(undecided('LOCK-class', 'floor', 'only %d lock sites found, expected at least 80' % n))
